@@ -8,6 +8,7 @@
 use crate::gen::*;
 use crate::harness::*;
 use crate::props::c04::{exec_history, SolveOp};
+use crate::refmath::Effective;
 use crate::refmath::*;
 use crate::simcore::*;
 use crate::timermodel::analyse;
@@ -81,7 +82,8 @@ pub fn check_report(
         probe("c03_nonfinite_iterate");
         return v;
     }
-    // products of entries beyond 1e100 overflow in either party's arithmetic;
+    // with entries beyond 1e50 the squared terms (x'Px, tau-scaled internals) pass
+    // 1e100 and intermediate overflow in either party's arithmetic is likely;
     // "agreement to rounding" has no meaning there
     let huge = snap
         .x
@@ -89,7 +91,7 @@ pub fn check_report(
         .chain(&snap.s)
         .chain(&snap.z)
         .fold(0.0f64, |m, a| m.max(a.abs()));
-    if huge > 1e100 {
+    if huge > 1e50 {
         probe("c03_overflow_range_iterate");
         return v;
     }
@@ -252,16 +254,92 @@ pub fn run(tier: Tier) -> RunOutcome {
     with_sim(|s| s.clocks[0] = Clock::new(profile.clone()));
     api(format!("ops {:?}", ops));
     let log1 = with_sim(|s| s.log.len());
-    let real = exec_history(1, &prob, &settings, &ops, true, None);
-    let (traces, log_copy) = with_sim(|s| (analyse(&s.log[log1..]), s.log[log1..].to_vec()));
-    let traces: Vec<_> = traces.into_iter().filter(|t| t.sid == 1).collect();
-
+    // the history: New; then per solve an optional accepted data update (so that
+    // "after any solve" covers solves on updated data), the limits, the solve
     let infb = with_sim(|s| s.inf_model);
-    let eff = effective(&prob, infb, settings.presolve_enable);
+    let eff0 = effective(&prob, infb, settings.presolve_enable);
+    let updates_allowed = eff0.n_dropped == 0;
+    let mut cur = prob.clone();
+    cur.b = eff0.b_capped.clone();
+    let mut st0 = settings.clone();
+    st0.time_limit = ops[0].time_limit;
+    st0.max_iter = ops[0].max_iter;
+    let Ok(mut solver) = sv_new(1, &prob, st0) else {
+        probe("c03_panic_skipped");
+        return out;
+    };
+    {
+        use clarabel::io::ConfigurablePrintTarget;
+        solver.print_to_sink();
+    }
     let mut statuses = vec![];
     let mut interrupted = false;
-    for (k, r) in real.snaps.iter().enumerate() {
-        let Ok(snap) = r else {
+    let mut n_updates = 0;
+    for (k, op) in ops.iter().enumerate() {
+        if k > 0 && updates_allowed && chance("update", 1, 2) {
+            let which = choose("upd_part", 4);
+            let indexed = flag("upd_indexed");
+            let newvals = |v: &[f64]| -> Vec<f64> {
+                v.iter()
+                    .map(|x| if chance("chg", 1, 2) { x + 0.5 * with_sim(|s| s.cs.small("dv")) } else { *x })
+                    .collect()
+            };
+            let r = match which {
+                0 => {
+                    let nv = newvals(&cur.q);
+                    let r = if indexed && !nv.is_empty() {
+                        let i = choose("idx", nv.len() as u32) as usize;
+                        cur.q[i] = nv[i];
+                        solver.update_q(&(vec![i], vec![nv[i]])).is_ok()
+                    } else {
+                        cur.q = nv.clone();
+                        solver.update_q(&nv).is_ok()
+                    };
+                    r
+                }
+                1 => {
+                    let nv = newvals(&cur.b);
+                    if indexed && !nv.is_empty() {
+                        let i = choose("idx", nv.len() as u32) as usize;
+                        cur.b[i] = nv[i];
+                        solver.update_b(&(vec![i], vec![nv[i]])).is_ok()
+                    } else {
+                        cur.b = nv.clone();
+                        solver.update_b(&nv).is_ok()
+                    }
+                }
+                2 => {
+                    // positive rescaling keeps P PSD
+                    let f = [2.0, 0.5, 3.0][choose("pf", 3) as usize];
+                    let nv: Vec<f64> = cur.p_triu.nzval.iter().map(|v| v * f).collect();
+                    cur.p_triu.nzval = nv.clone();
+                    cur.p_user = cur.p_triu.clone();
+                    solver.update_P(&nv).is_ok()
+                }
+                _ => {
+                    let nv = newvals(&cur.a.nzval);
+                    if indexed && !nv.is_empty() {
+                        let i = choose("idx", nv.len() as u32) as usize;
+                        cur.a.nzval[i] = nv[i];
+                        solver.update_A(&(vec![i], vec![nv[i]])).is_ok()
+                    } else {
+                        cur.a.nzval = nv.clone();
+                        solver.update_A(&nv).is_ok()
+                    }
+                }
+            };
+            call(1, "update", true, format!("part {} indexed {} -> {}", which, indexed, r));
+            if !r {
+                // a valid update was rejected: C08 judges that; our model is now off
+                probe("c03_update_rejected_stop");
+                break;
+            }
+            n_updates += 1;
+            probe("c03_solves_after_update");
+        }
+        solver.settings.time_limit = op.time_limit;
+        solver.settings.max_iter = op.max_iter;
+        let Ok(snap) = sv_solve(1, &mut solver) else {
             probe("c03_panic_skipped");
             break;
         };
@@ -283,15 +361,30 @@ pub fn run(tier: Tier) -> RunOutcome {
             SolverStatus::NumericalError => probe("c03_numerical_error"),
             _ => {}
         }
-        let tr = &traces[k];
-        let last_it = last_iteration_in(&log_copy, tr.ev_begin, tr.ev_end);
+        let (traces, log_copy) = with_sim(|s| (analyse(&s.log[log1..]), s.log[log1..].to_vec()));
+        let last_it = traces
+            .iter()
+            .filter(|t| t.sid == 1)
+            .last()
+            .and_then(|tr| last_iteration_in(&log_copy, tr.ev_begin, tr.ev_end));
+        // the data this solve worked on: the user's (updated) data, b capped
+        let eff = if updates_allowed {
+            Effective {
+                keep: vec![true; cur.m],
+                b_capped: cur.b.iter().map(|v| v.min(infb)).collect(),
+                n_dropped: 0,
+            }
+        } else {
+            eff0.clone()
+        };
+        let data = if updates_allowed { &cur } else { &prob };
         out.violations.extend(check_report(
-            &prob,
+            data,
             &eff,
             &settings,
-            snap,
+            &snap,
             last_it,
-            &format!("solve #{}", k),
+            &format!("solve #{} (after {} updates)", k, n_updates),
         ));
     }
     out.nontrivial = interrupted;
